@@ -231,6 +231,42 @@ fn make_libp2p_extension(
     Ok(ext)
 }
 
+/// Verification hook: a self-signed certificate whose libp2p Public Key Extension carries
+/// `identity_encoding` (any protobuf encoding of the host key, not necessarily the canonical one)
+/// and the signature that `sign` produces over the prescribed message.
+#[cfg(feature = "verif")]
+pub fn verif_generate_with_identity(
+    identity_encoding: Vec<u8>,
+    sign: &dyn Fn(&[u8]) -> Vec<u8>,
+) -> Result<Vec<u8>, GenError> {
+    use rcgen::PublicKeyData;
+
+    let certificate_keypair = rcgen::KeyPair::generate_for(P2P_SIGNATURE_ALGORITHM)?;
+    let signature = {
+        let mut msg = vec![];
+        msg.extend(P2P_SIGNING_PREFIX);
+        msg.extend(certificate_keypair.subject_public_key_info());
+        sign(&msg)
+    };
+    let mut ext = rcgen::CustomExtension::from_oid_content(
+        &P2P_EXT_OID,
+        yasna::encode_der(&(identity_encoding, signature)),
+    );
+    ext.set_criticality(true);
+    let mut params = rcgen::CertificateParams::new(vec![])?;
+    params.distinguished_name = rcgen::DistinguishedName::new();
+    params.custom_extensions.push(ext);
+
+    Ok(params.self_signed(&certificate_keypair)?.der().to_vec())
+}
+
+/// Verification hook: [`parse`] (extension extraction, signature checks) on DER bytes, returning
+/// the peer ID the QUIC transport would use for the connection.
+#[cfg(feature = "verif")]
+pub fn verif_parse_peer_id(der: &[u8]) -> Option<PeerId> {
+    parse(&rustls::Certificate(der.to_vec())).ok().map(|certificate| certificate.peer_id())
+}
+
 impl P2pCertificate<'_> {
     /// The [`PeerId`] of the remote peer.
     pub fn peer_id(&self) -> PeerId {
